@@ -9,7 +9,7 @@
    of X, Y and scalars R.  [nonincr phi s l] says phi never increases along s :: l.
    Iteration counts, budgets, dimensions and problem data are universally quantified. *)
 From Coq Require Import Reals List Bool.
-From Verif Require Import Base.Num C12.Model C12.Proofs.
+From Verif Require Import Base.Num Base.Vec C12.Model C12.Proofs.
 Import ListNotations.
 Local Open Scope R_scope.
 
@@ -104,6 +104,26 @@ Print Assumptions power_method_selfadjoint_bound.
 Theorem power_method_estimate_le_norm :
   forall e K : R, 0 <= e -> 0 <= K -> e * e * (e * e) <= K * K * (K * K) -> e <= K.
 Proof. exact pow4_le. Qed.
+
+(* the loop exactly as coded (normalising with sqrt every iteration): every x_norm it produces
+   is in [0, Kb] when |B z|^2 <= Kb^2 |z|^2; with B = A (self-adjoint branch, estimate = x_norm,
+   Kb = K) and B = A^* A (estimate = sqrt x_norm, Kb = K^2) the returned estimate is <= K *)
+Theorem power_method_as_coded_bounded :
+  forall (X : IPS) (B : X -> X) (Kb : R),
+  0 <= Kb -> (forall z, nsq (B z) <= Kb * Kb * nsq z) ->
+  forall (n : nat) (x0 : X) (l : list R),
+  pmn_run X smul inner sqrt B n x0 = Some l -> Forall (fun v => 0 <= v <= Kb) l.
+Proof. exact pm_run_bounded. Qed.
+Print Assumptions power_method_as_coded_bounded.
+(* ... and its k-th x_norm squared IS the rational quantity pm_sq that the correspondence
+   compares with the implementation (B homogeneous, e.g. linear) *)
+Theorem power_method_as_coded_matches_executable_model :
+  forall (X : IPS) (B : X -> X), (forall c x, B (c *' x) = c *' B x) ->
+  forall (n : nat) (x0 : X) (l : list R),
+  pmn_run X smul inner sqrt B n x0 = Some l ->
+  Forall2 (fun v k => pm_sq X inner B k x0 = Some (v * v)) l (seq 0 n).
+Proof. exact pm_run_ratio. Qed.
+Print Assumptions power_method_as_coded_matches_executable_model.
 
 (* ------------------------------------- backtracking / steepest descent *)
 (* whenever BacktrackingLineSearch returns alpha, f(x + alpha d) <= f(x) - |alpha dd discount|
@@ -230,6 +250,25 @@ Theorem forward_backward_solution_is_fixed_point :
 Proof. intros; apply (forward_backward_fixed_point X Y f proxF); auto; split; auto. Qed.
 Print Assumptions forward_backward_solution_is_fixed_point.
 
+(* Douglas-Rachford PD: its state (x, v) is not the solution itself.  For a KKT point
+   (xs, vss) the state (xh, vh) with  vh_i = vs_i + sigma_i/2 L_i xh  and
+   xh - tau/2 sum L_i^* vh_i = xs - tau sum L_i^* vs_i  is a fixed point of the step and the
+   iterate handed to the callback (p1) is xs -- any number of operators, any lam *)
+Theorem douglas_rachford_solution_is_fixed_point :
+  forall (X Y : IPS) (f : cfun X) (proxF : R -> X -> X),
+  convex X f -> prox_of X f proxF ->
+  forall (bs : list (pblk X Y)) (tau lam : R) (xs : X) (vss : list Y) (xh : X),
+  0 < tau ->
+  Forall (fun b => convex Y (pgc X Y b) /\ prox_of Y (pgc X Y b) (pprox X Y b) /\ 0 < psig X Y b) bs ->
+  subgrad X f xs ((- (1)) *' adjsum X Y bs vss) ->
+  Forall2 (fun b v => subgrad Y (pgc X Y b) v (pA X Y b xs)) bs vss ->
+  xh +' (- (tau / 2)) *' adjsum X Y bs (vhat X Y bs xh vss) = xs +' tau *' ((- (1)) *' adjsum X Y bs vss) ->
+  dr_p1 X Y vplus smul proxF (map (mk X Y) bs) tau (xh, vhat X Y bs xh vss) = xs /\
+  dr_step X Y vplus smul vplus smul proxF (map (mk X Y) bs) tau lam (xh, vhat X Y bs xh vss)
+  = (xh, vhat X Y bs xh vss).
+Proof. exact douglas_rachford_fixed_point. Qed.
+Print Assumptions douglas_rachford_solution_is_fixed_point.
+
 (* FULL CLAUSE "the non-smooth solvers drive the iterate towards a point that satisfies the
    first-order optimality conditions" -- convergence is not proved for any solver (validated by
    KKT-residual probes only), and it is REFUTED for forward_backward_pd as coded
@@ -249,6 +288,65 @@ Theorem forward_backward_documented_contracts_partial :
   forall (n : nat) (x v : R1), Edoc (iter (wFB false) n (x, [v])) = (3 / 4) ^ n * Edoc (x, [v]).
 Proof. exact fb_documented_contracts_lemma. Qed.
 Print Assumptions forward_backward_documented_contracts_partial.
+
+(* ------------------------------------ the same, about the LIST model itself *)
+(* C12/Inst.v instantiates the abstract spaces with R^n = lists of length n under a weighted dot
+   product and matrices as operators, and transports theorems to the very terms the shards run:
+   all dimensions m, n, all matrices, all positive weights. *)
+Theorem landweber_on_lists :
+  forall (n m : nat) (wV wW : list R),
+  length wV = n -> Forall (fun c => 0 < c) wV -> length wW = m -> Forall (fun c => 0 < c) wW ->
+  forall (M Mt : list (list R)), wf_mat m n M -> wf_mat n m Mt ->
+  (forall x y : list R, length x = n -> length y = m -> wdot wW (mvec M x) y = wdot wV x (mvec Mt y)) ->
+  forall (Mb omega : R) (b : list R),
+  (forall v : list R, length v = n -> wdot wW (mvec M v) (mvec M v) <= Mb * wdot wV v v) ->
+  0 <= omega -> omega * Mb <= 2 -> length b = m ->
+  forall (k : nat) (x : list R), length x = n ->
+  nonincr (fun x => let r := vadd (mvec M x) (vscal (- (1)) b) in wdot wW r r) x
+          (trace (lw_step (list R) (list R) vadd vscal vadd vscal (mvec M) (mvec Mt) omega b) k x).
+Proof.
+  intros n m wV wW H1 H2 H3 H4 M Mt HM HMt Hadj Mb omega b HB Ho HMb Hb k x Hx.
+  exact (landweber_lists n m wV wW H1 H2 H3 H4 M Mt HM HMt Hadj Mb omega b HB Ho HMb Hb k x Hx).
+Qed.
+Print Assumptions landweber_on_lists.
+
+(* with unit weights the plain transpose (Base.Vec.transpose) IS the adjoint: nothing about
+   adjoints is assumed any more *)
+Theorem landweber_on_lists_with_transpose :
+  forall (m n : nat) (M : list (list R)) (Mb omega : R) (b : list R),
+  wf_mat m n M ->
+  (forall v : list R, length v = n ->
+     wdot (repeat 1 m) (mvec M v) (mvec M v) <= Mb * wdot (repeat 1 n) v v) ->
+  0 <= omega -> omega * Mb <= 2 -> length b = m ->
+  forall (k : nat) (x : list R), length x = n ->
+  nonincr (fun x => let r := vadd (mvec M x) (vscal (- (1)) b) in wdot (repeat 1 m) r r) x
+          (trace (lw_step (list R) (list R) vadd vscal vadd vscal (mvec M) (mvec (transpose n M)) omega b) k x).
+Proof. exact landweber_lists_transpose. Qed.
+Print Assumptions landweber_on_lists_with_transpose.
+
+Theorem transpose_is_the_adjoint :
+  forall (m n : nat) (M : list (list R)), wf_mat m n M ->
+  forall x y : list R, length x = n -> length y = m ->
+  wdot (repeat 1 m) (mvec M x) y = wdot (repeat 1 n) x (mvec (transpose n M) y).
+Proof. exact transpose_is_adjoint. Qed.
+
+(* conjugate gradients on lists: M self-adjoint positive semi-definite for the weighted inner
+   product, M xs = b: the energy error never increases along the executed list model *)
+Theorem cg_on_lists :
+  forall (n : nat) (w : list R), length w = n -> Forall (fun c => 0 < c) w ->
+  forall (M : list (list R)), wf_mat n n M ->
+  (forall x y : list R, length x = n -> length y = n -> wdot w (mvec M x) y = wdot w x (mvec M y)) ->
+  (forall v : list R, length v = n -> 0 <= wdot w v (mvec M v)) ->
+  forall (b xs x : list R) (k : nat),
+  length b = n -> length xs = n -> length x = n -> mvec M xs = b ->
+  nonincr (fun s => let e := vadd (cg_x (list R) s) (vscal (- (1)) xs) in wdot w e (mvec M e))
+          (cg_init (list R) vadd vscal (wdot w) (mvec M) b x)
+          (cg_run (list R) vadd vscal (wdot w) (mvec M) b x k).
+Proof.
+  intros n w H1 H2 M HM Hsa Hpsd b xs x k Hb Hxs Hx Hsol.
+  exact (cg_lists n w H1 H2 M HM Hsa Hpsd b xs x k Hb Hxs Hx Hsol).
+Qed.
+Print Assumptions cg_on_lists.
 
 (* ------------------------------------------------------------ non-vacuity *)
 (* every hypothesis above is satisfied by concrete objects: the space R, the operator
